@@ -2,7 +2,7 @@
 // session harness. Same case protocol as ocaml/c03_driver.ml.
 //
 // EXACT cases (compared with the model, one digest per segmentation):
-//   role=<leech|leechdone|seed|iseed> np=<n> bits=<01..|-> pre=<0|1> cu=1 xv=<..> ho=<hex|-> stream=<hex|-> segs=k<cap>:<len>,..[/...]
+//   role=<leech|leechdone|seed|iseed|meta> np=<n> bits=<01..|-> pre=<0|1> cu=1 xv=<..> ho=<hex|-> stream=<hex|-> segs=k<cap>:<len>,..[/...]
 //   For every segmentation a FRESH connection from a fresh loopback address:
 //     handshake (+ BITFIELD if bits, + `ho` bytes if given, else + keep-alive), optional INTERESTED
 //     + 11 s (pre=1); then the library's WRITE side is held in ProtocolWrite::MSG (send budget 0
@@ -32,6 +32,7 @@
 #include "protocol/extensions.h"
 #include "torrent/data/file_list.h"
 #include "protocol/peer_connection_base.h"
+#include "protocol/peer_connection_metadata.h"
 #include "protocol/request_list.h"
 #include "torrent/data/block_transfer.h"
 #include "torrent/exceptions.h"
@@ -199,6 +200,7 @@ static std::string state_str(torrent::PeerConnectionBase* pcb) {
   case torrent::ProtocolBase::IDLE: return "IDLE";
   case torrent::ProtocolBase::READ_PIECE:
   case torrent::ProtocolBase::READ_SKIP_PIECE: {
+    if (auto* md = dynamic_cast<torrent::PeerConnectionMetadata*>(pcb)) return "SKIP:" + std::to_string(md->m_skipLength);
     auto* t = pcb->m_request_list.transfer();
     if (t == nullptr) return "SKIP:?";
     return std::string(pcb->m_down->get_state() == torrent::ProtocolBase::READ_PIECE ? "PIECE:" : "SKIP:") +
@@ -308,7 +310,7 @@ static std::string run_exact(Session& S, std::map<std::string, std::string>& kv)
   // two different peers is "done" and requests for it are dropped): deliveries from successive fresh peers on
   // one torrent are not independent. Every initial-seed delivery therefore gets its own torrent and its own
   // healthy peer; the other roles share one torrent per role.
-  const bool per_delivery = kv["role"] == "iseed";
+  const bool per_delivery = kv["role"] == "iseed" || kv["role"] == "meta";   // meta: a metadata_size in the stream sets the torrent size
   uint32_t np = std::stoul(kv["np"]);
   RoleCtx* shared = per_delivery ? nullptr : &get_role(S, kv["role"], np);
   std::string out, out2, healthy = "OK";
